@@ -50,12 +50,29 @@ RECURSIVE SetToSeq(_)
 SetToSeq(S) == IF S = {} THEN <<>> ELSE LET x == CHOOSE y \in S : TRUE IN <<x>> \o SetToSeq(S \ {x})
 StatusJ(st) == [marked |-> st.marked, v4 |-> SetToSeq(st.v4), v6 |-> SetToSeq(st.v6)]
 
+(* C13 for configuration data: the router's replies in every composition of information-preserving
+   rewrites (Depth = 0: each single rewrite, none and all of them; Depth = 1: every subset) *)
+StyleFlags == {"pfx", "ws", "pad", "cmt", "attr", "decl", "empt"}
+StyleCases == IF Depth = 0 THEN {{}} \cup {{f} : f \in StyleFlags} \cup {StyleFlags} \cup {StyleFlags \ {f} : f \in {"pfx", "empt"}}
+              ELSE SUBSET StyleFlags
+
+(* C14 for the agent: every positive reply of the router damaged in every way of the mutation grammar *)
+Mutations == {"trunc-half", "trunc-tag", "trunc-attr", "dup-statement", "dup-name", "dup-root", "huge-int", "range-reversed",
+              "range-junk", "bad-prefix", "family-swapped", "family-unknown", "wrong-ns", "no-ns", "bad-utf8", "nul-byte", "deep",
+              "deep-in-data", "huge-comment", "text-for-element", "unknown-element", "mismatched-end", "entity", "cdata", "doctype",
+              "empty", "only-space", "not-xml", "lt-only", "two-replies"}
+GarbleTargets == {"open", "get-running", "get-candidate", "load", "commit", "close-db", "close-session"}
+GarbleCases == {[target |-> t, index |-> IF t = "load" THEN i ELSE 0, kind |-> "mut:" \o m] :
+                   t \in (IF Depth = 0 THEN {"get-running", "get-candidate", "load"} ELSE GarbleTargets), m \in Mutations, i \in 1..2}
+
 Out ==
   CASE Family = "hist"  -> ToJson([cases |-> {[k \in 1..Depth |-> StatusJ(h[k])] : h \in Histories}])
     [] Family = "fault" -> ToJson([cases |-> {c \in FaultCases : FaultOk(c)}])
     [] Family = "c03"   -> ToJson([cases |-> C03Cases])
     [] Family = "c15"   -> ToJson([cases |-> C15Cases])
     [] Family = "shape" -> ToJson([cases |-> ShapeCases])
+    [] Family = "garble" -> ToJson([cases |-> GarbleCases])
+    [] Family = "style" -> ToJson([cases |-> StyleCases])
 ASSUME PrintT(<<"GEN", Out>>)
 VARIABLE dummy
 Spec == dummy = 0 /\ [][dummy' = dummy]_dummy
